@@ -107,6 +107,34 @@ def include_specs(mat, root):
     return specs
 
 
+def odd_name_specs(mat, root):
+    """Root files whose NAMES contain characters that mean something to a shell or a glob (`[ ] ? *`): a name is a name - the file
+    given is the file used, not a neighbour whose name the given one would match as a pattern."""
+    specs = []
+    for k, (given, neighbour) in enumerate((("root[2].pem", "root2.pem"), ("ca?.pem", "caX.pem"), ("all*.pem", "all-of-them.pem"))):
+        for src in ("endpoint", "global", "cli"):
+            for good_is_given in (False, True):
+                d = os.path.join(root, "odd", "%d-%s-%d" % (k, src, good_is_given))
+                os.makedirs(d, exist_ok=True)
+                open(os.path.join(d, given), "w").write(mat["good_root_pem"] if good_is_given else mat["decoy0"])
+                open(os.path.join(d, neighbour), "w").write(mat["decoy1"] if good_is_given else mat["good_root_pem"])
+                path = os.path.join(d, given)
+                host = "localhost" if (k + good_is_given) % 2 == 0 else "127.0.0.1"
+                ep = {"ca": {"tls": mat["trusted"], "host": host}}
+                g, rc = {}, []
+                if src == "endpoint":
+                    ep["root_certificates"] = [path]
+                elif src == "global":
+                    g["root_certificates"] = [path]
+                else:
+                    rc = [path]
+                pt = {"conf": [src], "holder": src if good_is_given else "none", "server": "trusted", "badsrc": "cli", "filestate": "ok"}
+                specs.append(flowcheck.prepare(dict(tag="C18/o%03d" % len(specs), certs=[simple_cert("odd%d" % len(specs))], endpoints={"A": ep}, global_opts=g,
+                                                    steps=[("run", {"attempts": 1, "root_certs": rc})],
+                                                    meta={"family": "root file names with pattern characters", "pt": pt, "url_host": host, "given": given, "neighbour": neighbour})))
+    return specs
+
+
 def pair_specs(mat, root):
     """Two endpoints in ONE daemon, each with its own endpoint-level root: trust must not leak from one endpoint to the other.
     Each endpoint is a point of the specification's grid of its own (conf = {endpoint})."""
@@ -150,7 +178,7 @@ def run(ctx):
     mat = material(root)
     run_pts = pts if ctx.tier == "thorough" else [p for i, p in enumerate(pts) if (i + ctx.seed) % 3 == 0 or (p["server"] == "trusted" and p["holder"] != "none" and p["filestate"] == "ok")]
     specs = [spec_for(i, pt, mat, root, "localhost" if i % 2 == 0 else "127.0.0.1") for i, pt in enumerate(run_pts)]
-    results = flows.run_many(specs + include_specs(mat, root), workers=12)
+    results = flows.run_many(specs + include_specs(mat, root) + odd_name_specs(mat, root), workers=12)
     presults = flows.run_many(pair_specs(mat, root), workers=8)
     lines = []
     owners = []
@@ -190,6 +218,6 @@ def run(ctx):
            "tls_handshakes_refused_by_the_daemon": sum(e["handshakes_failed"] for e in lines), "exhaustive": ctx.tier == "thorough",
            "rule": "TLC enumerates configured sources (8 subsets of --root-cert / endpoint / global) x which source holds the needed root x server certificate "
                    "(trusted chain, untrusted chain, other host name, expired) x one configured file unreadable or malformed; each point is run against a TLS-wrapped "
-                   "mock CA with private roots (URL host alternately localhost and 127.0.0.1); requests that reach the CA and issuance are judged by Trust.tla; plus the global list set in the main file and overridden by included files (7 arrangements: the last file that sets it decides); plus daemons with two endpoints that have different endpoint-level roots (right, crossed, missing): each endpoint is judged as a grid point of its own, so trust must not leak between endpoints of one process"}
+                   "mock CA with private roots (URL host alternately localhost and 127.0.0.1); requests that reach the CA and issuance are judged by Trust.tla; plus root files whose names contain glob characters next to a neighbour the name would match as a pattern (18 arrangements); plus the global list set in the main file and overridden by included files (7 arrangements: the last file that sets it decides); plus daemons with two endpoints that have different endpoint-level roots (right, crossed, missing): each endpoint is judged as a grid point of its own, so trust must not leak between endpoints of one process"}
     return {"coverage": cov, "assumptions": ["the system trust store does not contain the harness's private roots",
                                             "a request 'reaches the server' when the mock CA logs a decrypted HTTP request after a completed handshake"]}
